@@ -1,5 +1,8 @@
 // C01 harness: compilation is total; the script table survives rejections.
-// One engine per case.  ops (one per line):
+// One engine per case; `case <id> dev=<0|1>`: developer mode of the context (program-to-source map, source
+// positions in diagnostics); the context is DESTROYED before `end` is printed, with the watchdog armed, so a
+// crash or hang in teardown is blamed on the case.  ops (one per line):
+//   Z                         ScriptMaster::Reset()
 //   S <name> <hex>            register <hex> as the file content of <name> (memory file manager), no compile
 //   C <name> <r> <hex>        ScriptMaster::GetProgramScript(name, stream(<hex>), recompile=<r>)
 //   F <name> <r>              ScriptMaster::GetProgramScript(name, recompile=<r>)   (file variant)
@@ -219,8 +222,11 @@ static std::string skelOwners(const ProgramScript* scr, const Skel& s)
 int main()
 {
     vh::globalStreamsToStderr();
-    return vh::caseLoop([](const std::string& id, const std::string&, const std::vector<std::string>& ops) {
-        vh::Engine e;
+    return vh::caseLoop([](const std::string& id, const std::string& header, const std::vector<std::string>& ops) {
+        std::unique_ptr<vh::Engine> engine(new vh::Engine());
+        vh::Engine& e = *engine;
+        const bool dev = header.find("dev=0") == std::string::npos;
+        e.ctx->GetSettings().SetDeveloperEnabled(dev);
         int knum = 0;
         std::printf("case %s\n", id.c_str());
         std::fflush(stdout);
@@ -231,7 +237,10 @@ int main()
             is >> c;
             std::signal(SIGALRM, verif_on_alarm);
             alarm(20);                                   // the property's own bound: 20 s per compilation
-            if (c == "S") {
+            if (c == "Z") {
+                e.director().Reset();
+                std::printf("m Z\n");
+            } else if (c == "S") {
                 is >> name >> hex;
                 e.files.files[name] = unhex(hex);
                 std::printf("m S\n");
@@ -242,6 +251,11 @@ int main()
                     imemstream stream(src.data(), src.size());
                     return e.director().GetProgramScript(name.c_str(), stream, r != 0);
                 });
+                if (std::getenv("C01_DIAG")) {       // development aid: the diagnostic on one line
+                    std::string d = e.io.err.str();
+                    for (char& ch : d) if (ch == '\n' || ch == '\r') ch = '|';
+                    std::printf("d %s\n", d.c_str());
+                }
                 std::printf("m C %s\n", o.cls.c_str());
             } else if (c == "F") {
                 is >> name >> r;
@@ -301,6 +315,7 @@ int main()
         }
         alarm(20);
         e.director().Reset();
+        engine.reset();                                  // ~ScriptContext inside the watched region
         verif_watchdog_off();
         std::printf("end\n");
         std::fflush(stdout);
